@@ -94,6 +94,17 @@ func runC39(c *eng.Ctx) {
 					}
 				}
 				c.Ob("ORDER-move", eng.FuncName(fn)+" source-detached-before-attach", okDet, discSrc.Pos(), "a source that has a parent leaves it before it is attached to the new one (otherwise it stays reachable under the old path)")
+				// ... and before the destination's subtree is cleared: clearing walks everything still linked under the
+				// destination, which includes the source when the destination is the source itself or one of its ancestors
+				okFirst := len(srcHasParent) > 0
+				noParent := map[eng.Edge]bool{}
+				for e := range srcHasParent {
+					noParent[eng.Edge{B: e.B, I: 1 - e.I}] = true
+				}
+				if hit, _ := eng.Search(eng.After(find[0]), eng.AnyOf(del), eng.SearchOpt{Barrier: eng.Is(discSrc), Cut: noParent}); hit != nil {
+					okFirst = false
+				}
+				c.Ob("ORDER-move", eng.FuncName(fn)+" source-detached-before-destination-cleared", okFirst, discSrc.Pos(), "the source is unlinked from its old parent before the destination subtree is cleared (a destination that is an ancestor of the source, or the source itself, would otherwise clear the moved subtree)")
 				c.Before("ORDER-move", "destination-detached-before-attach", fn, eng.Is(discDst), conn, "whatever occupied the destination is detached before the source takes its place")
 				c.Before("ORDER-move", "destination-cleared-before-attach", fn, eng.AnyOf(del), conn, "and its subtree is cleared")
 				okDel := eng.Mentions(eng.RecvOf(del[0].(*ssa.Call)), 4, func(x ssa.Value) bool { return x == ssa.Value(ensure[0].(*ssa.Call)) })
@@ -122,7 +133,7 @@ func runC39(c *eng.Ctx) {
 			}
 		}
 	}
-	c.Expect("ORDER-move", 8)
+	c.Expect("ORDER-move", 9)
 
 	// ---------------------------------------------------------------- (3) ORDER-delete and node primitives
 	if fn := c.NeedFunc("weed/filesys", "(*FsCache).DeleteFsNode"); fn != nil {
